@@ -253,6 +253,10 @@ func checkC02(c *Ctx) {
 	parallel(len(jobs), func(i int) {
 		j := jobs[i]
 		key := fmt.Sprintf("%s|%v|%v|%s", j.t.Name, j.decs, j.blank, histString(j.h))
+		if n := len(j.decs) / 2; j.t.Name == "CaseClause.Body" && n > 0 && (j.decs[n-1].Trail || j.decs[2*n-1].Trail) {
+			// the last statement of a case body carries a trailing same-line comment (K7)
+			key = "CaseClause.Body(last-trailing)" + strings.TrimPrefix(key, "CaseClause.Body")
+		}
 		sig, what, ok := "", "", false
 		if msg := guard(func() { sig, what, ok = c02Case(j.t, j.decs, j.blank, j.h) }); msg != "" {
 			sig, what, ok = "list-edit-panic", msg, true
